@@ -381,8 +381,11 @@ def DECIMAL(text, base):
     base = utils.parse_number(base)
     if isinstance(base, error.XLError):
         return base
+    if base != int(base) or not 2 <= base <= 36:
+        # int(text, 0) would guess the radix from a 0x / 0o / 0b prefix
+        return error.VALUE
     try:
-        dec = int(text, base)
+        dec = int(text, int(base))
         return (dec - 1099511627776) if (dec >= 549755813888) else dec
     except ValueError:
         return error.VALUE
